@@ -9,6 +9,7 @@ import OdcGeo.Lemmas.C20
 import OdcGeo.Lemmas.C20b
 import OdcGeo.Lemmas.C20c
 import OdcGeo.Lemmas.C20d
+import OdcGeo.Lemmas.C20e
 import Mathlib.Algebra.Order.Field.Basic
 import OdcGeo.Props.C17
 
@@ -406,11 +407,13 @@ theorem affine_from_pts_rejects (lstsq : List (Rat × Rat) → List (Rat × Rat)
     · rw [if_pos h1]
     · rw [if_neg h1, if_pos h]
 
-/-- **`poly_fit_exact_partial`** (general least-squares fact behind `Poly2d.fit`): for any
+/-- **`poly_fit_exact_partial`** — the general least-squares fact behind `Poly2d.fit`: for any
 parametrised model `F`, if some parameter reproduces the data exactly then every minimiser of the
 squared residual reproduces it too; with an injective design (hypothesis `hinj`) the minimiser is
-that parameter.  *Partial*: the normalisation `norm_xy` (uses `sqrt`) is not modelled; the
-de-normalisation step is `poly_fit_denorm` below. -/
+that parameter.  It is instantiated for the real pipeline — `norm_xy` on both sides, LAPACK on
+the normalised problem, de-normalisation — by `poly_fit_exact_affine` (N = 3),
+`poly_fit_exact_bilinear` (4 ≤ N ≤ 8) and `poly_fit_exact_biquadratic` (N ≥ 9) below, so what
+remains *partial* is only the assumption that LAPACK returns a minimiser (and IEEE rounding). -/
 theorem poly_fit_exact_partial {C : Type} (F : C → (Rat × Rat) → (Rat × Rat))
     (XY : List ((Rat × Rat) × (Rat × Rat))) (c0 c : C)
     (hexact : ∀ q ∈ XY, F c0 q.1 = q.2)
@@ -485,6 +488,173 @@ theorem poly_fit_denorm (c0 c1 c2 c3 : Rat × Rat) (Ab : Aff) (hb : Ab.b = 0) (h
   simp only [Poly2d.evalCC, Poly2d.reshape, Poly2d.denorm, polyval2d, polyval, Aff.apply, e1, e2, e3,
     List.range, List.range.loop, List.map, List.drop, List.take, List.foldr]
   ext <;> simp <;> ring
+
+/-! ## `norm_xy` (as repaired) and `Poly2d.fit` through normalisation + de-normalisation
+
+`norm_xy` is modelled over an arbitrary ordered field (`normXYK` in `Lemmas/C20e.lean`; over `Rat`
+there is no `√2`), with the distances from the centroid and `√2` given as witnesses. -/
+
+section normxy
+variable {K : Type} [Field K] [LinearOrder K] [IsStrictOrderedRing K]
+set_option linter.unusedSectionVars false
+
+/-- **The affine returned by `norm_xy` maps the input points onto the normalised ones**, it is a
+uniform scale + translation with positive scale (hence invertible). -/
+theorem norm_xy_affine_maps (pts : List (K × K)) (ds : List K) (r : K) (hr : 0 < r) :
+    (normXYK pts ds r).pts =
+      pts.map (fun p => ((normXYK pts ds r).s * p.1 + (normXYK pts ds r).tx,
+                         (normXYK pts ds r).s * p.2 + (normXYK pts ds r).ty)) ∧
+    0 < (normXYK pts ds r).s :=
+  ⟨normXYK_affine_maps pts ds r, normXYK_scale_pos pts ds r hr⟩
+
+/-- **The mean of the normalised points is 0** (any non-empty point set). -/
+theorem norm_xy_mean_zero (pts : List (K × K)) (ds : List K) (r : K) (hne : pts ≠ []) :
+    meanK ((normXYK pts ds r).pts.map (·.1)) = 0 ∧ meanK ((normXYK pts ds r).pts.map (·.2)) = 0 :=
+  normXYK_mean_zero pts ds r hne
+
+/-- **The mean distance of the normalised points from 0 is `√2`** whenever the input has a positive
+mean distance from its centroid (i.e. not all points coincide): with `ds` the distances of the
+centred input points (`0 ≤ d`, `d² = x² + y²`), `ds·s` are the distances of the normalised
+points, their mean is `r`, and `r·r = 2` makes its square 2.  A point *on* the centroid
+(`d = 0`) is harmless — that was the defect repaired by 1cb55fb. -/
+theorem norm_xy_mean_dist_sqrt2 (pts : List (K × K)) (ds : List K) (r : K) (hr : 0 < r)
+    (hd : IsCentredDist pts ds) (hm : 0 < meanK ds) :
+    List.Forall₂ (fun q d => 0 ≤ d ∧ d * d = q.1 * q.1 + q.2 * q.2)
+        (normXYK pts ds r).pts (ds.map (· * (normXYK pts ds r).s)) ∧
+      meanK (ds.map (· * (normXYK pts ds r).s)) = r ∧
+      (r * r = 2 → meanK (ds.map (· * (normXYK pts ds r).s)) * meanK (ds.map (· * (normXYK pts ds r).s)) = 2) :=
+  normXYK_mean_dist pts ds r hr hd hm
+
+/-- All points coincide (mean distance 0): the scale is 1 and every normalised point is 0. -/
+theorem norm_xy_degenerate (pts : List (K × K)) (ds : List K) (r : K) (hm : ¬ 0 < meanK ds) :
+    (normXYK pts ds r).s = 1 := by
+  simp only [normXYK]; rw [if_neg hm]
+
+end normxy
+
+/-- Hypotheses of `norm_xy_mean_dist_sqrt2` are satisfiable, with a point exactly on the centroid:
+a 6×8 rectangle plus its centre, distances `5, 5, 5, 5, 0`, mean distance `4 > 0`. -/
+example : IsCentredDist (K := Rat) [(-3, -4), (3, 4), (-3, 4), (3, -4), (0, 0)] [5, 5, 5, 5, 0] ∧
+    0 < meanK (K := Rat) [5, 5, 5, 5, 0] := by
+  constructor
+  · unfold IsCentredDist meanK
+    norm_num
+  · unfold meanK; norm_num
+
+/-! `FitNorms Ain Ab` (defined in `Lemmas/C20e.lean`): both normalisations are scale + translation with
+non-zero scales, uniform on the output side — what `norm_xy` produces (`fit_norms_of_norm_xy`). -/
+
+/-- `norm_xy`'s output (any witnesses, any positive stand-in `r` for `√2`; rational instance)
+satisfies `FitNorms`: `aa_, Ain = norm_xy(aa)`, `bb_, Ab = norm_xy(bb)`. -/
+theorem fit_norms_of_norm_xy (aa bb : List (Rat × Rat)) (da db : List Rat) (r : Rat) (hr : 0 < r) :
+    FitNorms
+      ⟨(normXYK aa da r).s, 0, (normXYK aa da r).tx, 0, (normXYK aa da r).s, (normXYK aa da r).ty⟩
+      ⟨(normXYK bb db r).s, 0, (normXYK bb db r).tx, 0, (normXYK bb db r).s, (normXYK bb db r).ty⟩ :=
+  ⟨rfl, rfl, ne_of_gt (normXYK_scale_pos aa da r hr), ne_of_gt (normXYK_scale_pos aa da r hr), rfl, rfl, rfl,
+   ne_of_gt (normXYK_scale_pos bb db r hr)⟩
+
+/-- **`Poly2d.fit`, `4 ≤ N ≤ 8` (`_fit4`): exactly bilinear data are reproduced through the
+normalisation and the de-normalisation.**  If `b_i = p(a_i)` for a bilinear `p` (in the original
+coordinates) and LAPACK's coefficient table `[c0..c3]` minimises the squared residual on the
+*normalised* correspondences `(Ain·a_i, Ab·b_i)`, then the returned `Poly2d` maps every `a_i` to
+`b_i`.  The only assumption left is "LAPACK returns a minimiser". -/
+theorem poly_fit_exact_bilinear (Ain Ab : Aff) (hN : FitNorms Ain Ab)
+    (data : List ((Rat × Rat) × (Rat × Rat))) (p0 p1 p2 p3 : Rat × Rat)
+    (hexact : ∀ q ∈ data, Poly2d.evalCC (Poly2d.reshape 2 [p0, p1, p2, p3]) q.1 = q.2)
+    (c0 c1 c2 c3 : Rat × Rat)
+    (hmin : ∀ d0 d1 d2 d3 : Rat × Rat,
+      Poly2d.fitCost 2 Ain Ab data [c0, c1, c2, c3] ≤ Poly2d.fitCost 2 Ain Ab data [d0, d1, d2, d3]) :
+    ∀ q ∈ data, (Poly2d.ofFit 2 [c0, c1, c2, c3] Ain Ab).eval q.1 = q.2 := by
+  obtain ⟨hdetin, hib, hid⟩ := st_inv Ain hN.inb hN.ind hN.ina hN.ine
+  obtain ⟨hdetout, _, _⟩ := st_inv Ab hN.outb hN.outd hN.outa (hN.outs ▸ hN.outa)
+  obtain ⟨e0, e1, e2, e3, _, hcl⟩ := bilinear_closed p0 p1 p2 p3 Ain.inv Ab ⟨hib, hid⟩ ⟨hN.outb, hN.outd⟩
+  -- the problem LAPACK solves, as an instance of the general least-squares fact
+  let F : ((Rat × Rat) × (Rat × Rat) × (Rat × Rat) × (Rat × Rat)) → (Rat × Rat) → (Rat × Rat) :=
+    fun c a => Poly2d.evalCC (Poly2d.reshape 2 [c.1, c.2.1, c.2.2.1, c.2.2.2]) (Ain.apply a)
+  have hfit := (poly_fit_exact_partial F (data.map fun q => (q.1, Ab.apply q.2)) (e0, e1, e2, e3) (c0, c1, c2, c3)
+    (by
+      intro q hq
+      obtain ⟨q', hq', rfl⟩ := List.mem_map.mp hq
+      simp only [F]
+      rw [hcl, Aff.inv_apply_apply Ain hdetin, hexact q' hq'])
+    (by
+      intro c'
+      have := hmin c'.1 c'.2.1 c'.2.2.1 c'.2.2.2
+      simpa only [Poly2d.fitCost, List.map_map, Function.comp_def, F] using this)).1
+  intro q hq
+  have h1 := hfit (q.1, Ab.apply q.2) (List.mem_map.mpr ⟨q, hq, rfl⟩)
+  simp only [F] at h1
+  simp only [Poly2d.eval, Poly2d.ofFit, poly_norm_eq_apply]
+  rw [poly_fit_denorm c0 c1 c2 c3 Ab hN.outb hN.outd hN.outs, h1, Aff.inv_apply_apply Ab hdetout]
+
+/-- **`Poly2d.fit`, `N = 3` (`_fit3`): exactly affine data are reproduced**; LAPACK minimises over
+the three coefficients of `1, y, x`, the `xy` coefficient is the appended zero row. -/
+theorem poly_fit_exact_affine (Ain Ab : Aff) (hN : FitNorms Ain Ab)
+    (data : List ((Rat × Rat) × (Rat × Rat))) (p0 p1 p2 : Rat × Rat)
+    (hexact : ∀ q ∈ data, Poly2d.evalCC (Poly2d.reshape 2 [p0, p1, p2, (0, 0)]) q.1 = q.2)
+    (c0 c1 c2 : Rat × Rat)
+    (hmin : ∀ d0 d1 d2 : Rat × Rat,
+      Poly2d.fitCost 2 Ain Ab data [c0, c1, c2, (0, 0)] ≤ Poly2d.fitCost 2 Ain Ab data [d0, d1, d2, (0, 0)]) :
+    ∀ q ∈ data, (Poly2d.ofFit 2 [c0, c1, c2, (0, 0)] Ain Ab).eval q.1 = q.2 := by
+  obtain ⟨hdetin, hib, hid⟩ := st_inv Ain hN.inb hN.ind hN.ina hN.ine
+  obtain ⟨hdetout, _, _⟩ := st_inv Ab hN.outb hN.outd hN.outa (hN.outs ▸ hN.outa)
+  obtain ⟨e0, e1, e2, e3, he3, hcl⟩ := bilinear_closed p0 p1 p2 (0, 0) Ain.inv Ab ⟨hib, hid⟩ ⟨hN.outb, hN.outd⟩
+  have he3' := he3 rfl
+  subst he3'
+  let F : ((Rat × Rat) × (Rat × Rat) × (Rat × Rat)) → (Rat × Rat) → (Rat × Rat) :=
+    fun c a => Poly2d.evalCC (Poly2d.reshape 2 [c.1, c.2.1, c.2.2, (0, 0)]) (Ain.apply a)
+  have hfit := (poly_fit_exact_partial F (data.map fun q => (q.1, Ab.apply q.2)) (e0, e1, e2) (c0, c1, c2)
+    (by
+      intro q hq
+      obtain ⟨q', hq', rfl⟩ := List.mem_map.mp hq
+      simp only [F]
+      rw [hcl, Aff.inv_apply_apply Ain hdetin, hexact q' hq'])
+    (by
+      intro c'
+      have := hmin c'.1 c'.2.1 c'.2.2
+      simpa only [Poly2d.fitCost, List.map_map, Function.comp_def, F] using this)).1
+  intro q hq
+  have h1 := hfit (q.1, Ab.apply q.2) (List.mem_map.mpr ⟨q, hq, rfl⟩)
+  simp only [F] at h1
+  simp only [Poly2d.eval, Poly2d.ofFit, poly_norm_eq_apply]
+  rw [poly_fit_denorm c0 c1 c2 (0, 0) Ab hN.outb hN.outd hN.outs, h1, Aff.inv_apply_apply Ab hdetout]
+
+/-- **`Poly2d.fit`, `N ≥ 9` (`_fit9`): exactly biquadratic data are reproduced** through the
+normalisation and the de-normalisation, given that LAPACK returns a minimiser. -/
+theorem poly_fit_exact_biquadratic (Ain Ab : Aff) (hN : FitNorms Ain Ab)
+    (data : List ((Rat × Rat) × (Rat × Rat))) (p0 p1 p2 p3 p4 p5 p6 p7 p8 : Rat × Rat)
+    (hexact : ∀ q ∈ data, Poly2d.evalCC (Poly2d.reshape 3 [p0, p1, p2, p3, p4, p5, p6, p7, p8]) q.1 = q.2)
+    (c0 c1 c2 c3 c4 c5 c6 c7 c8 : Rat × Rat)
+    (hmin : ∀ d0 d1 d2 d3 d4 d5 d6 d7 d8 : Rat × Rat,
+      Poly2d.fitCost 3 Ain Ab data [c0, c1, c2, c3, c4, c5, c6, c7, c8] ≤
+        Poly2d.fitCost 3 Ain Ab data [d0, d1, d2, d3, d4, d5, d6, d7, d8]) :
+    ∀ q ∈ data, (Poly2d.ofFit 3 [c0, c1, c2, c3, c4, c5, c6, c7, c8] Ain Ab).eval q.1 = q.2 := by
+  obtain ⟨hdetin, hib, hid⟩ := st_inv Ain hN.inb hN.ind hN.ina hN.ine
+  obtain ⟨hdetout, _, _⟩ := st_inv Ab hN.outb hN.outd hN.outa (hN.outs ▸ hN.outa)
+  obtain ⟨e0, e1, e2, e3, e4, e5, e6, e7, e8, hcl⟩ :=
+    biquadratic_closed p0 p1 p2 p3 p4 p5 p6 p7 p8 Ain.inv Ab ⟨hib, hid⟩ ⟨hN.outb, hN.outd⟩
+  let C := (Rat × Rat) × (Rat × Rat) × (Rat × Rat) × (Rat × Rat) × (Rat × Rat) × (Rat × Rat) × (Rat × Rat) ×
+    (Rat × Rat) × (Rat × Rat)
+  let F : C → (Rat × Rat) → (Rat × Rat) := fun c a =>
+    Poly2d.evalCC (Poly2d.reshape 3 [c.1, c.2.1, c.2.2.1, c.2.2.2.1, c.2.2.2.2.1, c.2.2.2.2.2.1,
+      c.2.2.2.2.2.2.1, c.2.2.2.2.2.2.2.1, c.2.2.2.2.2.2.2.2]) (Ain.apply a)
+  have hfit := (poly_fit_exact_partial F (data.map fun q => (q.1, Ab.apply q.2))
+    (e0, e1, e2, e3, e4, e5, e6, e7, e8) (c0, c1, c2, c3, c4, c5, c6, c7, c8)
+    (by
+      intro q hq
+      obtain ⟨q', hq', rfl⟩ := List.mem_map.mp hq
+      simp only [F]
+      rw [hcl, Aff.inv_apply_apply Ain hdetin, hexact q' hq'])
+    (by
+      intro c'
+      have := hmin c'.1 c'.2.1 c'.2.2.1 c'.2.2.2.1 c'.2.2.2.2.1 c'.2.2.2.2.2.1 c'.2.2.2.2.2.2.1
+        c'.2.2.2.2.2.2.2.1 c'.2.2.2.2.2.2.2.2
+      simpa only [Poly2d.fitCost, List.map_map, Function.comp_def, F] using this)).1
+  intro q hq
+  have h1 := hfit (q.1, Ab.apply q.2) (List.mem_map.mpr ⟨q, hq, rfl⟩)
+  simp only [F] at h1
+  simp only [Poly2d.eval, Poly2d.ofFit, poly_norm_eq_apply]
+  rw [denorm9 c0 c1 c2 c3 c4 c5 c6 c7 c8 Ab hN.outb hN.outd hN.outs, h1, Aff.inv_apply_apply Ab hdetout]
 
 /-! ## `data_resolution_and_offset`, `affine_from_axis` -/
 
